@@ -31,6 +31,37 @@ func gen(seed int64, tier string, idx int) *pipe.Scenario {
 		if g.R.Intn(2) == 0 {
 			sc.Faults = append(sc.Faults, pipe.Fault{Kind: "set", KeyPrefix: "pipeline:instance:", Every: 1, Action: "delay-after", DelayUs: 300 + g.R.Intn(5000)})
 		}
+		if idx%12 == 6 {
+			// a Start that fails while the pipeline is being built (the plugin of the
+			// LAST processor cannot be created) must leave nothing reserved: the next
+			// Start, with the plugin available again, has to work
+			pa := rig.ProcSpec{ID: "pa"}
+			sc.Topo.PipeProcs = append(sc.Topo.PipeProcs, pa)
+			pb := rig.ProcSpec{ID: "pb"}
+			last := len(sc.Topo.Dests) - 1
+			sc.Topo.Dests[last].Procs = append(sc.Topo.Dests[last].Procs, pb)
+			sc.Name = "start-build-failure"
+			sc.Steps = append(sc.Steps, pipe.Step{AtEvent: at, Op: "stopwait"}, pipe.Step{AtEvent: 0, Op: "settlewait"},
+				pipe.Step{AtEvent: 0, Op: "procnewerr:pb"}, pipe.Step{AtEvent: 0, Op: "start"},
+				pipe.Step{AtEvent: 0, Op: "procnewok:pb"}, pipe.Step{AtEvent: 0, Op: "start"}, pipe.Step{AtEvent: 0, Op: "pause"})
+			n = 2
+		}
+		if idx%6 == 3 {
+			// every run ends with a plugin Teardown that reports an error (a processor's
+			// and a destination's): whatever the engine makes of the error, the
+			// resources of the ended run must be released, i.e. the next Start works
+			p := rig.ProcSpec{ID: "pt"}
+			p.Script.TeardownErr = "vf teardown error"
+			sc.Topo.PipeProcs = append(sc.Topo.PipeProcs, p)
+			if g.R.Intn(2) == 0 {
+				sc.Topo.Dests[0].Dst.CallErr = map[string]string{"Teardown#*": "vf teardown error"}
+			}
+			sc.RecMaxRetries = 0
+			sc.Name = "teardown-error"
+			sc.Steps = append(sc.Steps, pipe.Step{AtEvent: at, Op: "stopwait"}, pipe.Step{AtEvent: 0, Op: "settlewait"}, pipe.Step{AtEvent: 0, Op: "start"},
+				pipe.Step{AtEvent: 0, Op: "pause"}, pipe.Step{AtEvent: 0, Op: "forcestop"}, pipe.Step{AtEvent: 0, Op: "wait"}, pipe.Step{AtEvent: 0, Op: "settlewait"}, pipe.Step{AtEvent: 0, Op: "start"}, pipe.Step{AtEvent: 0, Op: "pause"})
+			n = 2
+		}
 	case "failure-interleaved":
 		d := &sc.Topo.Dests[0]
 		switch g.R.Intn(3) {
@@ -84,6 +115,16 @@ func hooks(sc *pipe.Scenario) *pipe.Hooks {
 		case "pause":
 			time.Sleep(30 * time.Millisecond)
 			return true
+		}
+		if id, ok := strings.CutPrefix(op, "procnewerr:"); ok {
+			r.Procs.SetNewErr(id, "vf processor plugin unavailable")
+			return true
+		}
+		if id, ok := strings.CutPrefix(op, "procnewok:"); ok {
+			r.Procs.SetNewErr(id, "")
+			return true
+		}
+		switch op {
 		case "settlewait":
 			r.Log.Quiet(20*time.Millisecond, 3*time.Second)
 			return true
@@ -329,6 +370,16 @@ func judge(out *pipe.Outcome, ix *pipe.Index) pipe.Verdict {
 					for q := live.open; q <= live.tear && q < len(evs); q++ {
 						if evs[q].Kind == rig.KNote && (strings.Contains(evs[q].Note, "run fails")) || evs[q].Kind == rig.KFailure {
 							failedDuring = true
+						}
+					}
+					// ... and so may an error a plugin returned while the run was ending (a
+					// failing Teardown): the run stopped as requested AND ended with an error
+					for q := live.open; q <= c.ret && q < len(evs); q++ {
+						switch evs[q].Kind {
+						case rig.KProcTeardown, rig.KDstTeardown, rig.KSrcTeardown, rig.KPluginCall, rig.KSrcStop, rig.KDstStop:
+							if evs[q].Err != "" {
+								failedDuring = true
+							}
 						}
 					}
 					switch res {
